@@ -608,7 +608,9 @@ def plural_suffix_clash(name):
 
 
 # ordinary keys whose names end in a plural suffix word but have no sibling form: they stay ordinary keys
-LONE_SUFFIX_KEYS = ["the_other", "any_one", "very_few", "so_many", "number_two", "ground_zero", "rank_ordinal_other", "place_ordinal_one"]
+LONE_SUFFIX_KEYS = ["the_other", "any_one", "very_few", "so_many", "number_two", "ground_zero", "rank_ordinal_other", "place_ordinal_one",
+                    # valid identifiers that a YAML reader resolves to a boolean / null when they stand unquoted
+                    "True", "FALSE", "Null", "NULL", "null"]
 
 
 def gen_key_names(rng, n, pool=None):
